@@ -2788,3 +2788,836 @@ Proof.
     constructor; [intros [C|[]]; discriminate|constructor; [intros []|constructor]].
   - split; [vm_compute; reflexivity|]. split; vm_compute; reflexivity.
 Qed.
+
+#[local] Close Scope string_scope.
+
+(* ------------------------------------------------------------------ composition: association lists *)
+
+(** fraction of component [k] in real well [i]; 0 for an unknown component *)
+Definition cfrac (comp : list (string * list Q)) (k : string) (i : nat) : Q :=
+  match assoc_get k comp with Some a => nth i a 0 | None => 0 end.
+
+Lemma assoc_get_set_same {A} k (v : A) l : assoc_get k (assoc_set k v l) = Some v.
+Proof.
+  induction l as [|[k1 v1] r IH]; cbn [assoc_set assoc_get].
+  - rewrite String.eqb_refl. reflexivity.
+  - destruct (String.eqb k1 k) eqn:E; cbn [assoc_get]; rewrite E; [reflexivity|exact IH].
+Qed.
+
+Lemma assoc_get_set_other {A} k k0 (v : A) l : k0 <> k -> assoc_get k (assoc_set k0 v l) = assoc_get k l.
+Proof.
+  intro Hne. induction l as [|[k1 v1] r IH]; cbn [assoc_set assoc_get].
+  - destruct (String.eqb_spec k0 k); [contradiction|reflexivity].
+  - destruct (String.eqb_spec k1 k0) as [->|N]; cbn [assoc_get].
+    + destruct (String.eqb_spec k0 k); [contradiction|reflexivity].
+    + destruct (String.eqb k1 k); [reflexivity|exact IH].
+Qed.
+
+Lemma assoc_get_None {A} k (l : list (string * A)) : assoc_get k l = None <-> ~ In k (map fst l).
+Proof.
+  induction l as [|[k1 v1] r IH]; cbn [assoc_get map fst In]; [tauto|].
+  destruct (String.eqb_spec k1 k) as [->|N].
+  - split; [discriminate|]. intro H. exfalso. apply H. left. reflexivity.
+  - rewrite IH. split; [intros H [C|C]; [contradiction|apply H; exact C]|intros H C; apply H; right; exact C].
+Qed.
+
+Lemma assoc_get_In_key {A} k (l : list (string * A)) : In k (map fst l) -> exists v, assoc_get k l = Some v.
+Proof.
+  intro H. destruct (assoc_get k l) as [v|] eqn:E; [exists v; reflexivity|].
+  apply assoc_get_None in E. contradiction.
+Qed.
+
+Lemma keys_assoc_set {A} k (v : A) l :
+  map fst (assoc_set k v l) = if (match assoc_get k l with Some _ => true | None => false end)
+                              then map fst l else (map fst l ++ [k])%list.
+Proof.
+  induction l as [|[k1 v1] r IH]; cbn [assoc_set assoc_get map fst app]; [reflexivity|].
+  destruct (String.eqb_spec k1 k) as [->|N]; cbn [map fst]; [reflexivity|].
+  rewrite IH. destruct (assoc_get k r); reflexivity.
+Qed.
+
+Lemma NoDup_snoc {A} (l : list A) x : NoDup l -> ~ In x l -> NoDup (l ++ [x]).
+Proof.
+  induction l as [|y r IH]; intros H Hx; cbn [app].
+  - constructor; [intros []|constructor].
+  - inversion H as [|y' r' Hy Hr]; subst. constructor.
+    + intro C. apply in_app_or in C. destruct C as [C|[C|[]]]; [contradiction|]. subst. apply Hx. left. reflexivity.
+    + apply IH; [exact Hr|]. intro C. apply Hx. right. exact C.
+Qed.
+
+Lemma assoc_set_NoDup {A} k (v : A) l : NoDup (map fst l) -> NoDup (map fst (assoc_set k v l)).
+Proof.
+  intro H. rewrite keys_assoc_set. destruct (assoc_get k l) as [x|] eqn:E; [exact H|].
+  apply assoc_get_None in E. apply NoDup_snoc; assumption.
+Qed.
+
+Lemma assoc_get_app {A} k (l1 l2 : list (string * A)) :
+  assoc_get k (l1 ++ l2) = match assoc_get k l1 with Some v => Some v | None => assoc_get k l2 end.
+Proof.
+  induction l1 as [|[k1 v1] r IH]; cbn [app assoc_get]; [reflexivity|].
+  destruct (String.eqb k1 k); [reflexivity|exact IH].
+Qed.
+
+Lemma assoc_get_map_val {A B} (F : string -> A -> B) k (l : list (string * A)) :
+  assoc_get k (map (fun ka => (fst ka, F (fst ka) (snd ka))) l) =
+  match assoc_get k l with Some a => Some (F k a) | None => None end.
+Proof.
+  induction l as [|[k1 v1] r IH]; cbn [map assoc_get fst snd]; [reflexivity|].
+  destruct (String.eqb_spec k1 k) as [->|N]; [reflexivity|exact IH].
+Qed.
+
+Lemma assoc_get_const {A} (x : A) k (ks : list string) :
+  assoc_get k (map (fun k0 => (k0, x)) ks) = if existsb (String.eqb k) ks then Some x else None.
+Proof.
+  induction ks as [|k1 r IH]; cbn [map assoc_get existsb]; [reflexivity|].
+  rewrite (String.eqb_sym k k1). destruct (String.eqb k1 k); cbn [orb]; [reflexivity|exact IH].
+Qed.
+
+Lemma fget_notin k (c : list (string * Q)) : ~ In k (map fst c) -> fget k c = 0.
+Proof. intro H. unfold fget. apply assoc_get_None in H. rewrite H. reflexivity. Qed.
+
+Definition arrays_len (n : nat) (comp : list (string * list Q)) : Prop :=
+  Forall (fun ka => length (snd ka) = n) comp.
+
+Lemma arrays_len_get n comp k a : arrays_len n comp -> assoc_get k comp = Some a -> length a = n.
+Proof.
+  intros HF H. destruct (assoc_get_In _ _ _ H) as [k' Hin].
+  unfold arrays_len in HF. rewrite Forall_forall in HF. apply (HF (k', a) Hin).
+Qed.
+
+Lemma nth_repeat0 n j : nth j (repeat 0 n) 0 = 0.
+Proof. revert j. induction n as [|n IH]; intros [|j]; cbn [repeat nth]; try reflexivity. apply IH. Qed.
+
+(* ------------------------------------------------------------------ composition: the interpreter's mixing *)
+
+Lemma mix_into_cfrac r i V v g k j :
+  arrays_len (length (rk_vols r)) (rk_comp r) -> (i < length (rk_vols r))%nat -> ~ V + v == 0 ->
+  cfrac (mix_into r i V v g) k j ==
+  if (j =? i)%nat then (V * cfrac (rk_comp r) k i + v * fget k g) / (V + v) else cfrac (rk_comp r) k j.
+Proof.
+  intros HL Hi Hnz. unfold mix_into.
+  destruct (Qeq_bool (V + v) 0) eqn:Ez; [apply Qeq_bool_iff in Ez; contradiction|].
+  set (n := length (rk_vols r)) in *. set (old := rk_comp r) in *.
+  set (newkeys := filter (fun k0 => match assoc_get k0 old with Some _ => false | None => true end) (map fst g)).
+  unfold cfrac at 1.
+  rewrite (assoc_get_map_val (fun k0 a => upd a i ((V * nth i a 0 + v * fget k0 g) / (V + v)))).
+  rewrite assoc_get_app, assoc_get_const.
+  destruct (assoc_get k old) as [a|] eqn:Ea.
+  - pose proof (arrays_len_get _ _ _ _ HL Ea) as Hlen. unfold cfrac. rewrite Ea.
+    destruct (Nat.eqb_spec j i) as [->|Hne].
+    + rewrite nth_upd_same by lia. reflexivity.
+    + rewrite nth_upd_other by congruence. reflexivity.
+  - unfold cfrac. rewrite Ea. destruct (existsb (String.eqb k) newkeys) eqn:En.
+    + destruct (Nat.eqb_spec j i) as [->|Hne].
+      * rewrite nth_upd_same by (rewrite repeat_length; exact Hi). rewrite nth_repeat0. reflexivity.
+      * rewrite nth_upd_other by congruence. rewrite nth_repeat0. reflexivity.
+    + assert (Hg : fget k g = 0).
+      { apply fget_notin. intro Hin. assert (C : In k newkeys) by (apply filter_In; split; [exact Hin|rewrite Ea; reflexivity]).
+        assert (C' : existsb (String.eqb k) newkeys = true) by (apply existsb_exists; exists k; split; [exact C|apply String.eqb_refl]).
+        congruence. }
+      rewrite Hg. destruct (j =? i)%nat; [field; exact Hnz|reflexivity].
+Qed.
+
+Lemma NoDup_app_disj {A} (l1 l2 : list A) : NoDup l1 -> NoDup l2 -> (forall x, In x l1 -> ~ In x l2) ->
+  NoDup (l1 ++ l2).
+Proof.
+  induction l1 as [|a r IH]; intros H1 H2 Hd; cbn [app]; [exact H2|].
+  inversion H1 as [|a' r' Ha Hr]; subst. constructor.
+  - intro C. apply in_app_or in C. destruct C as [C|C]; [contradiction|]. apply (Hd a); [left; reflexivity|exact C].
+  - apply IH; [exact Hr|exact H2|]. intros x Hx. apply Hd. right. exact Hx.
+Qed.
+
+Lemma mix_into_inv r i V v g :
+  arrays_len (length (rk_vols r)) (rk_comp r) -> NoDup (map fst (rk_comp r)) -> NoDup (map fst g) ->
+  arrays_len (length (rk_vols r)) (mix_into r i V v g) /\ NoDup (map fst (mix_into r i V v g)).
+Proof.
+  intros HL ND NG. unfold mix_into. destruct (Qeq_bool (V + v) 0); [split; assumption|].
+  set (newkeys := filter (fun k0 => match assoc_get k0 (rk_comp r) with Some _ => false | None => true end) (map fst g)).
+  split.
+  - unfold arrays_len. rewrite Forall_map. apply Forall_app. split.
+    + eapply Forall_impl; [|exact HL]. intros ka Hka. cbn [snd]. rewrite upd_length. exact Hka.
+    + rewrite Forall_map. apply Forall_forall. intros k0 _. cbn [snd]. rewrite upd_length. apply repeat_length.
+  - rewrite map_map. cbn [fst]. rewrite map_app, map_map. cbn [fst]. rewrite map_id.
+    apply NoDup_app_disj; [exact ND|apply NoDup_filter; exact NG|].
+    intros x Hx Hn. apply filter_In in Hn. destruct Hn as [_ Hn].
+    destruct (assoc_get_In_key _ _ Hx) as [a Ha]. rewrite Ha in Hn. discriminate.
+Qed.
+
+(* ------------------------------------------------------------------ composition: the model's mixing *)
+
+Definition has_key {A} (k : string) (l : list (string * A)) : bool :=
+  match assoc_get k l with Some _ => true | None => false end.
+
+Lemma has_key_false {A} k (l : list (string * A)) : ~ In k (map fst l) -> has_key k l = false.
+Proof. intro H. unfold has_key. apply assoc_get_None in H. rewrite H. reflexivity. Qed.
+
+Definition wc_step (n i : nat) (comp : list (string * list Q)) (kf : string * Q) : list (string * list Q) :=
+  assoc_set (fst kf) (upd (match assoc_get (fst kf) comp with Some a => a | None => repeat 0 n end) i (snd kf)) comp.
+
+Lemma write_composition_fold L i c :
+  lw_comp (write_composition L i c) = fold_left (wc_step (n_wells (lw_geom L)) i) c (lw_comp L).
+Proof. reflexivity. Qed.
+
+Lemma wc_step_len n i comp kf : arrays_len n comp -> arrays_len n (wc_step n i comp kf).
+Proof.
+  intro HL. unfold wc_step, arrays_len. apply assoc_set_Forall; [|exact HL].
+  intro k'. cbn [snd]. rewrite upd_length. destruct (assoc_get (fst kf) comp) as [a|] eqn:E.
+  - eapply arrays_len_get; eassumption.
+  - apply repeat_length.
+Qed.
+
+Lemma wc_step_cfrac n i comp k0 x k j : arrays_len n comp -> (i < n)%nat ->
+  cfrac (wc_step n i comp (k0, x)) k j = if (String.eqb k0 k && (j =? i)%nat)%bool then x else cfrac comp k j.
+Proof.
+  intros HL Hi. unfold wc_step, cfrac. cbn [fst snd].
+  destruct (String.eqb_spec k0 k) as [->|Hne]; cbn [andb].
+  - rewrite assoc_get_set_same.
+    assert (Hlen : length (match assoc_get k comp with Some a => a | None => repeat 0 n end) = n).
+    { destruct (assoc_get k comp) as [a|] eqn:E; [eapply arrays_len_get; eassumption|apply repeat_length]. }
+    destruct (Nat.eqb_spec j i) as [->|Hj].
+    + apply nth_upd_same. lia.
+    + rewrite nth_upd_other by congruence. destruct (assoc_get k comp); [reflexivity|apply nth_repeat0].
+  - rewrite assoc_get_set_other by exact Hne. reflexivity.
+Qed.
+
+Lemma wc_fold_len n i c : forall comp, arrays_len n comp -> arrays_len n (fold_left (wc_step n i) c comp).
+Proof.
+  induction c as [|kf r IH]; intros comp HL; cbn [fold_left]; [exact HL|]. apply IH. apply wc_step_len. exact HL.
+Qed.
+
+Lemma wc_fold_NoDup n i c : forall comp, NoDup (map fst comp) -> NoDup (map fst (fold_left (wc_step n i) c comp)).
+Proof.
+  induction c as [|kf r IH]; intros comp ND; cbn [fold_left]; [exact ND|]. apply IH.
+  unfold wc_step. apply assoc_set_NoDup. exact ND.
+Qed.
+
+Lemma wc_fold_cfrac n i k j c : NoDup (map fst c) -> forall comp, arrays_len n comp -> (i < n)%nat ->
+  cfrac (fold_left (wc_step n i) c comp) k j =
+  if ((j =? i)%nat && has_key k c)%bool then fget k c else cfrac comp k j.
+Proof.
+  induction c as [|[k0 x] r IH]; intros ND comp HL Hi; cbn [fold_left].
+  - unfold has_key. cbn [assoc_get]. rewrite andb_false_r. reflexivity.
+  - cbn [map fst] in ND. inversion ND as [|k0' r' Hk0 Hr]; subst.
+    rewrite (IH Hr _ (wc_step_len n i comp (k0, x) HL) Hi), (wc_step_cfrac n i comp k0 x k j HL Hi).
+    unfold has_key, fget. cbn [assoc_get].
+    destruct (String.eqb_spec k0 k) as [->|Hne]; cbn [andb].
+    + apply assoc_get_None in Hk0. rewrite Hk0. rewrite andb_false_r, andb_true_r.
+      destruct (j =? i)%nat; reflexivity.
+    + reflexivity.
+Qed.
+
+(** [combine_composition] with a non-zero total *)
+Definition mstep (vB : Q) (acc : composition) (kf : string * Q) : composition :=
+  assoc_set (fst kf) (Qred (match assoc_get (fst kf) acc with Some x => x | None => 0 end + snd kf * vB)) acc.
+
+Lemma combine_unfold vA cA vB cB : Qeq_bool (vA + vB) 0 = false ->
+  combine_composition vA cA vB cB =
+  map (fun kv => (fst kv, Qred (snd kv / (vA + vB))))
+      (fold_left (mstep vB) cB (map (fun kf => (fst kf, snd kf * vA)) cA)).
+Proof. intro H. unfold combine_composition. rewrite H. reflexivity. Qed.
+
+Lemma mfold_fget vB k cB : NoDup (map fst cB) -> forall acc,
+  fget k (fold_left (mstep vB) cB acc) == fget k acc + fget k cB * vB /\
+  has_key k (fold_left (mstep vB) cB acc) = (has_key k acc || has_key k cB)%bool.
+Proof.
+  induction cB as [|[k0 f] r IH]; intros ND acc; cbn [fold_left].
+  - unfold fget at 3, has_key at 3. cbn [assoc_get]. rewrite orb_false_r. split; [ring|reflexivity].
+  - cbn [map fst] in ND. inversion ND as [|k0' r' Hk0 Hr]; subst.
+    destruct (IH Hr (mstep vB acc (k0, f))) as [IH1 IH2]. rewrite IH1, IH2.
+    unfold mstep, fget, has_key. cbn [fst snd assoc_get].
+    destruct (String.eqb_spec k0 k) as [->|Hne].
+    + rewrite assoc_get_set_same. apply assoc_get_None in Hk0. rewrite Hk0.
+      rewrite Qred_correct. split; [ring|]. rewrite orb_true_r, orb_false_r. reflexivity.
+    + rewrite assoc_get_set_other by exact Hne. split; reflexivity.
+Qed.
+
+Lemma mfold_NoDup vB cB : forall acc, NoDup (map fst acc) -> NoDup (map fst (fold_left (mstep vB) cB acc)).
+Proof.
+  induction cB as [|kf r IH]; intros acc ND; cbn [fold_left]; [exact ND|]. apply IH.
+  unfold mstep. apply assoc_set_NoDup. exact ND.
+Qed.
+
+Lemma combine_fget vA cA vB cB k : ~ vA + vB == 0 -> NoDup (map fst cB) ->
+  fget k (combine_composition vA cA vB cB) == (fget k cA * vA + fget k cB * vB) / (vA + vB) /\
+  has_key k (combine_composition vA cA vB cB) = (has_key k cA || has_key k cB)%bool.
+Proof.
+  intros Hnz ND.
+  assert (Ez : Qeq_bool (vA + vB) 0 = false).
+  { destruct (Qeq_bool (vA + vB) 0) eqn:E; [apply Qeq_bool_iff in E; contradiction|reflexivity]. }
+  rewrite (combine_unfold _ _ _ _ Ez).
+  destruct (mfold_fget vB k cB ND (map (fun kf => (fst kf, snd kf * vA)) cA)) as [H1 H2].
+  unfold fget, has_key in *.
+  rewrite (assoc_get_map_val (fun _ x => Qred (x / (vA + vB)))).
+  rewrite (assoc_get_map_val (fun _ x => x * vA)) in H1, H2.
+  destruct (assoc_get k cA) as [a|]; destruct (assoc_get k cB) as [b|];
+    destruct (assoc_get k (fold_left (mstep vB) cB (map (fun kf => (fst kf, snd kf * vA)) cA))) as [x|];
+    cbn [orb] in H2; try discriminate; (split; [|reflexivity]).
+  - rewrite Qred_correct, H1. reflexivity.
+  - rewrite Qred_correct, H1. field. exact Hnz.
+  - rewrite Qred_correct, H1. field. exact Hnz.
+  - field. exact Hnz.
+Qed.
+
+Lemma combine_NoDup vA cA vB cB : NoDup (map fst cA) -> NoDup (map fst (combine_composition vA cA vB cB)).
+Proof.
+  intro ND. unfold combine_composition. destruct (Qeq_bool (vA + vB) 0); [exact ND|].
+  rewrite map_map. cbn [fst]. apply mfold_NoDup. rewrite map_map. cbn [fst]. exact ND.
+Qed.
+
+(** [get_well_composition]: the components with a positive fraction *)
+Definition wca (comp : list (string * list Q)) (i : nat) : composition :=
+  flat_map (fun kf => let f := nth i (snd kf) 0 in if Qltb 0 f then [(fst kf, f)] else []) comp.
+
+Lemma wca_keys comp i k : In k (map fst (wca comp i)) -> In k (map fst comp).
+Proof.
+  induction comp as [|[k1 a1] r IH]; cbn [wca flat_map map fst snd]; [tauto|].
+  fold (wca r i). rewrite map_app. intro H. apply in_app_or in H. destruct H as [H|H].
+  - destruct (Qltb 0 (nth i a1 0)); [|contradiction]. destruct H as [<-|[]]. left. reflexivity.
+  - right. apply IH. exact H.
+Qed.
+
+Lemma wca_NoDup comp i : NoDup (map fst comp) -> NoDup (map fst (wca comp i)).
+Proof.
+  induction comp as [|[k1 a1] r IH]; cbn [wca flat_map map fst snd]; intro ND; [constructor|].
+  fold (wca r i). inversion ND as [|k1' r' Hk1 Hr]; subst. rewrite map_app.
+  apply NoDup_app_disj; [|apply IH; exact Hr|].
+  - destruct (Qltb 0 (nth i a1 0)); [constructor; [intros []|constructor]|constructor].
+  - intros x Hx Hn. destruct (Qltb 0 (nth i a1 0)); [|contradiction]. destruct Hx as [<-|[]].
+    apply Hk1. eapply wca_keys. exact Hn.
+Qed.
+
+Lemma wca_get comp i k : NoDup (map fst comp) ->
+  assoc_get k (wca comp i) = if Qltb 0 (cfrac comp k i) then Some (cfrac comp k i) else None.
+Proof.
+  induction comp as [|[k1 a1] r IH]; intro ND; cbn [wca flat_map fst snd].
+  - reflexivity.
+  - fold (wca r i). cbn [map fst] in ND. inversion ND as [|k1' r' Hk1 Hr]; subst.
+    rewrite assoc_get_app. unfold cfrac at 1 2. cbn [assoc_get].
+    destruct (String.eqb_spec k1 k) as [->|Hne].
+    + assert (Hn : assoc_get k (wca r i) = None)
+        by (apply assoc_get_None; intro C; apply Hk1; eapply wca_keys; exact C).
+      destruct (Qltb 0 (nth i a1 0)); cbn [assoc_get]; [rewrite String.eqb_refl; reflexivity|exact Hn].
+    + assert (E : assoc_get k (if Qltb 0 (nth i a1 0) then [(k1, nth i a1 0)] else []) = None).
+      { destruct (Qltb 0 (nth i a1 0)); cbn [assoc_get]; [|reflexivity].
+        destruct (String.eqb_spec k1 k); [contradiction|reflexivity]. }
+      rewrite E. apply IH. exact Hr.
+Qed.
+
+Lemma fget_wca comp i k : NoDup (map fst comp) -> 0 <= cfrac comp k i -> fget k (wca comp i) == cfrac comp k i.
+Proof.
+  intros ND Hnn. unfold fget. rewrite wca_get by exact ND.
+  destruct (Qltb 0 (cfrac comp k i)) eqn:E; [reflexivity|]. apply Qltb_false in E. lra.
+Qed.
+
+(** fractions of a well after one accepted addition of a liquid of known composition *)
+Lemma add_one_cfrac L i v c k j :
+  arrays_len (n_wells (lw_geom L)) (lw_comp L) -> (i < n_wells (lw_geom L))%nat ->
+  NoDup (map fst (lw_comp L)) -> NoDup (map fst c) ->
+  (forall k0, 0 <= cfrac (lw_comp L) k0 i) -> ~ vol_at L i + v == 0 ->
+  cfrac (lw_comp (add_one L i v (Some c))) k j ==
+  if (j =? i)%nat then (vol_at L i * cfrac (lw_comp L) k i + v * fget k c) / (vol_at L i + v)
+  else cfrac (lw_comp L) k j.
+Proof.
+  intros HL Hi ND NC Hnn Hnz. unfold add_one. cbv zeta. rewrite write_composition_fold.
+  cbn [lw_comp lw_geom set_vols].
+  change (well_composition_at (set_vols L (upd (lw_vols L) i (Qred (vol_at L i + v)))) i) with (wca (lw_comp L) i).
+  set (mixed := combine_composition (vol_at L i) (wca (lw_comp L) i) v c).
+  assert (NM : NoDup (map fst mixed)) by (apply combine_NoDup, wca_NoDup; exact ND).
+  rewrite (wc_fold_cfrac _ i k j mixed NM _ HL Hi).
+  destruct (Nat.eqb_spec j i) as [->|Hj]; cbn [andb]; [|reflexivity].
+  destruct (combine_fget (vol_at L i) (wca (lw_comp L) i) v c k Hnz NC) as [Hf Hh]. fold mixed in Hf, Hh.
+  pose proof (fget_wca (lw_comp L) i k ND (Hnn k)) as Hwca.
+  rewrite Hh. destruct (has_key k (wca (lw_comp L) i) || has_key k c)%bool eqn:E.
+  - rewrite Hf, Hwca. field. exact Hnz.
+  - apply orb_false_iff in E. destruct E as [E1 E2].
+    assert (Hz : cfrac (lw_comp L) k i == 0).
+    { unfold has_key in E1. rewrite wca_get in E1 by exact ND.
+      destruct (Qltb 0 (cfrac (lw_comp L) k i)) eqn:Ep; [discriminate|]. apply Qltb_false in Ep.
+      pose proof (Hnn k). lra. }
+    assert (Hc0 : fget k c = 0).
+    { unfold has_key in E2. unfold fget. destruct (assoc_get k c); [discriminate|reflexivity]. }
+    rewrite Hz, Hc0. field. exact Hnz.
+Qed.
+
+(* ------------------------------------------------------------------ composition: one pipetting step *)
+
+Lemma remove_single_ok L sw v label L' : remove L (A1 [sw]) (A1 [XQ v]) label = (L', None) ->
+  exists i, lw_index L sw = Some i /\ Qltb (Qred (vol_at L i - v)) (lw_min L) = false /\ 0 <= v /\
+            L' = log (rem_one L i v) label.
+Proof.
+  intro H. destruct (remove_accepted _ _ _ _ _ H) as (L1 & _ & Hok & Hrun & ->).
+  cbv zeta in Hrun, Hok. cbn [flattenF broadcast length repeat zip] in Hrun, Hok.
+  inversion Hok as [|it r0 Hv _]; subst. cbn [snd] in Hv. apply vol_ok_XQ in Hv.
+  apply rem_run_loop in Hrun. rewrite remove_loop_cons in Hrun.
+  destruct (lw_index L sw) as [i|]; [|discriminate].
+  destruct (Qltb (Qred (vol_at L i - v)) (lw_min L)) eqn:E; [discriminate|].
+  cbn [remove_loop] in Hrun. injection Hrun as <-. exists i. repeat split; assumption || reflexivity.
+Qed.
+
+Lemma add_single_ok L dw v label c L' : add L (A1 [dw]) (A1 [XQ v]) label (Some [Some c]) = (L', None) ->
+  exists i, lw_index L dw = Some i /\ Qgtb (Qred (vol_at L i + v)) (lw_max L) = false /\ 0 <= v /\
+            L' = log (add_one L i v (Some c)) label.
+Proof.
+  unfold add, prep_wells_vols. cbn [flattenF broadcast length repeat Nat.eqb negb forallb vol_ok].
+  rewrite andb_true_r. destruct (Qle_bool 0 v) eqn:Ev; cbn [negb zip length Nat.eqb map fst snd]; [|discriminate].
+  rewrite add_loop_cons. destruct (lw_index L dw) as [i|]; [|discriminate].
+  destruct (Qgtb (Qred (vol_at L i + v)) (lw_max L)) eqn:E; [discriminate|].
+  cbn [add_loop]. intro H. injection H as <-. exists i. apply Qle_bool_iff in Ev.
+  repeat split; assumption || reflexivity.
+Qed.
+
+Lemma aspirate_single_state s ks sw v kw s1 :
+  aspirate s ks (A0 sw) (A0 (XQ v)) None kw = (s1, None) ->
+  exists Ls i, nth_error (st_lw s) ks = Some Ls /\ lw_index Ls sw = Some i /\
+    Qltb (Qred (vol_at Ls i - v)) (lw_min Ls) = false /\ 0 <= v /\
+    st_lw s1 = upd (st_lw s) ks (log (rem_one Ls i v) None).
+Proof.
+  unfold aspirate, wells_vols. destruct (nth_error (st_lw s) ks) as [Ls|]; [|discriminate].
+  cbn [flattenF broadcast length repeat]. cbv beta zeta iota.
+  destruct (remove Ls (A1 [sw]) (A1 [XQ v]) None) as [L' [e|]] eqn:Er; [discriminate|].
+  destruct (remove_single_ok _ _ _ _ _ Er) as (i & Hi & Hc & Hv & ->).
+  destruct (comment _ None) as [w [e|]]; [discriminate|].
+  destruct (emit_wells true w _ _ kw) as [w' e']. intro H. injection H as <- _.
+  exists Ls, i. repeat split; assumption || reflexivity.
+Qed.
+
+Lemma dispense_single_state s kd dw v c kw s2 :
+  dispense s kd (A0 dw) (A0 (XQ v)) None (Some [Some c]) kw = (s2, None) ->
+  exists Ld i, nth_error (st_lw s) kd = Some Ld /\ lw_index Ld dw = Some i /\
+    Qgtb (Qred (vol_at Ld i + v)) (lw_max Ld) = false /\ 0 <= v /\
+    st_lw s2 = upd (st_lw s) kd (log (add_one Ld i v (Some c)) None).
+Proof.
+  unfold dispense, wells_vols. destruct (nth_error (st_lw s) kd) as [Ld|]; [|discriminate].
+  cbn [flattenF broadcast length repeat]. cbv beta zeta iota.
+  destruct (add Ld (A1 [dw]) (A1 [XQ v]) None (Some [Some c])) as [L' [e|]] eqn:Er; [discriminate|].
+  destruct (add_single_ok _ _ _ _ _ _ Er) as (i & Hi & Hc & Hv & ->).
+  destruct (comment _ None) as [w [e|]]; [discriminate|].
+  destruct (emit_wells false w _ _ kw) as [w' e']. intro H. injection H as <- _.
+  exists Ld, i. repeat split; assumption || reflexivity.
+Qed.
+
+(** the labware list after a successful pipetting step *)
+Lemma exec_step_state s ks kd sw dw v ws kw s' :
+  exec_step s ks kd sw dw v ws kw = (s', None) ->
+  exists Ls i_s Ld1 i_d,
+    nth_error (st_lw s) ks = Some Ls /\ lw_index Ls sw = Some i_s /\
+    Qltb (Qred (vol_at Ls i_s - v)) (lw_min Ls) = false /\ 0 <= v /\
+    nth_error (upd (st_lw s) ks (log (rem_one Ls i_s v) None)) kd = Some Ld1 /\
+    lw_index Ld1 dw = Some i_d /\ Qgtb (Qred (vol_at Ld1 i_d + v)) (lw_max Ld1) = false /\
+    st_lw s' = upd (upd (st_lw s) ks (log (rem_one Ls i_s v) None)) kd
+                   (log (add_one Ld1 i_d v (Some (wca (lw_comp Ls) i_s))) None).
+Proof.
+  unfold exec_step.
+  destruct (aspirate s ks (A0 sw) (A0 (XQ v)) None kw) as [s1 [e|]] eqn:Ea; [discriminate|].
+  destruct (aspirate_single_state _ _ _ _ _ _ Ea) as (Ls & i_s & HLs & His & Hcs & Hv & Hs1).
+  assert (HL1 : nth_error (st_lw s1) ks = Some (log (rem_one Ls i_s v) None)).
+  { rewrite Hs1. apply nth_error_upd_same. eapply nth_error_lt. exact HLs. }
+  rewrite HL1. unfold get_well_composition.
+  rewrite (lw_index_geom (log (rem_one Ls i_s v) None) Ls sw eq_refl), His.
+  change (well_composition_at (log (rem_one Ls i_s v) None) i_s) with (wca (lw_comp Ls) i_s).
+  destruct (dispense s1 kd (A0 dw) (A0 (XQ v)) None (Some [Some (wca (lw_comp Ls) i_s)]) kw) as [s2 [e|]] eqn:Ed;
+    [discriminate|].
+  destruct (dispense_single_state _ _ _ _ _ _ _ Ed) as (Ld1 & i_d & HLd & Hid & Hcd & _ & Hs2).
+  destruct (tip_action (st_wl s2) ws) as [w e]. intro H. injection H as <- _.
+  exists Ls, i_s, Ld1, i_d. cbn [st_lw set_wl]. rewrite <- Hs1. repeat split; assumption.
+Qed.
+
+Lemma do_aspirate_exact c d lws rb k L r i p v :
+  sim_racks lws (rb_racks rb) -> NoDup (map lw_name lws) -> nth_error lws k = Some L ->
+  nth_error (rb_racks rb) k = Some r -> unpos d (lw_geom L) p = Some i ->
+  Qltb (Qred (vol_at L i - v)) (lw_min L) = false ->
+  do_aspirate c d rb (lw_name L) p v =
+  Some (with_rack rb k (set_rack_vol r i (nth i (rk_vols r) 0 - v)) (Some (fractions_at r i))).
+Proof.
+  intros Hsim ND HL Hr Hp Hchk.
+  destruct (find_rack_sim _ _ _ _ Hsim ND HL) as (r' & Hf & Hr' & Hrs).
+  rewrite Hr in Hr'. injection Hr' as <-. pose proof Hrs as (H1 & H2 & H3 & H4 & H5).
+  assert (Hu : unpos d (rk_geom r) p = Some i) by (rewrite H2; exact Hp).
+  unfold do_aspirate. rewrite Hf, Hr, Hu.
+  assert (E : Qltb (nth i (rk_vols r) 0 - v) (rk_min r) = false).
+  { rewrite <- Hchk. apply Qltb_compat; [|rewrite H3; reflexivity].
+    rewrite Qred_correct. unfold vol_at. rewrite (Forall2_Qeq_nth _ _ i H5). reflexivity. }
+  rewrite E, andb_false_r. reflexivity.
+Qed.
+
+Lemma do_dispense_exact c d lws rb k L r i p v :
+  sim_racks lws (rb_racks rb) -> NoDup (map lw_name lws) -> nth_error lws k = Some L ->
+  nth_error (rb_racks rb) k = Some r -> unpos d (lw_geom L) p = Some i ->
+  Qgtb (Qred (vol_at L i + v)) (lw_max L) = false ->
+  do_dispense c d rb (lw_name L) p v =
+  Some (with_rack rb k
+          {| rk_name := rk_name r; rk_geom := rk_geom r; rk_min := rk_min r; rk_max := rk_max r;
+             rk_vols := upd (rk_vols r) i (nth i (rk_vols r) 0 + v);
+             rk_comp := match rb_tip rb with
+                        | Some g => mix_into r i (nth i (rk_vols r) 0) v g
+                        | None => rk_comp r
+                        end |} (rb_tip rb)).
+Proof.
+  intros Hsim ND HL Hr Hp Hchk.
+  destruct (find_rack_sim _ _ _ _ Hsim ND HL) as (r' & Hf & Hr' & Hrs).
+  rewrite Hr in Hr'. injection Hr' as <-. pose proof Hrs as (H1 & H2 & H3 & H4 & H5).
+  assert (Hu : unpos d (rk_geom r) p = Some i) by (rewrite H2; exact Hp).
+  unfold do_dispense. rewrite Hf, Hr, Hu.
+  assert (E : Qgtb (nth i (rk_vols r) 0 + v) (rk_max r) = false).
+  { rewrite <- Hchk. apply Qgtb_compat; [|rewrite H4; reflexivity].
+    rewrite Qred_correct. unfold vol_at. rewrite (Forall2_Qeq_nth _ _ i H5). reflexivity. }
+  rewrite E, andb_false_r. reflexivity.
+Qed.
+
+Lemma fget_fractions_at r i k : fget k (fractions_at r i) = cfrac (rk_comp r) k i.
+Proof.
+  unfold fget, fractions_at, cfrac.
+  rewrite (assoc_get_map_val (fun _ a => nth i a 0)). destruct (assoc_get k (rk_comp r)); reflexivity.
+Qed.
+
+Lemma fractions_at_keys r i : map fst (fractions_at r i) = map fst (rk_comp r).
+Proof. unfold fractions_at. rewrite map_map. reflexivity. Qed.
+
+(** invariant of the tracked composition tables: distinct component names, no negative fraction *)
+Definition cinv (L : labware) : Prop :=
+  NoDup (map fst (lw_comp L)) /\ forall k j, 0 <= cfrac (lw_comp L) k j.
+
+Definition cstate (s : state) : Prop := Forall cinv (st_lw s).
+
+(** refinement including the compositions: every component has the same fraction in every well *)
+Definition rack_csim (L : labware) (r : rack) : Prop :=
+  rack_sim L r /\ arrays_len (length (rk_vols r)) (rk_comp r) /\ NoDup (map fst (rk_comp r)) /\
+  forall k j, cfrac (rk_comp r) k j == cfrac (lw_comp L) k j.
+
+Definition csim (s : state) (rb : robot) : Prop := Forall2 rack_csim (st_lw s) (rb_racks rb).
+
+Lemma Forall2_imp {A B} (R R' : A -> B -> Prop) l1 l2 :
+  (forall a b, R a b -> R' a b) -> Forall2 R l1 l2 -> Forall2 R' l1 l2.
+Proof. intros Himp H. induction H as [|a b r1 r2 Hab _ IH]; constructor; auto. Qed.
+
+Lemma csim_sim s rb : csim s rb -> sim s rb.
+Proof. intro H. eapply Forall2_imp; [|exact H]. intros L r (Hs & _). exact Hs. Qed.
+
+
+Lemma mix_formula_nonneg V v f g : 0 <= V -> 0 < v -> 0 <= f -> 0 <= g -> 0 <= (V * f + v * g) / (V + v).
+Proof.
+  intros HV Hv Hf Hg. apply Qle_shift_div_l; [lra|]. nra.
+Qed.
+
+Lemma nth_error_upd_some {A} (l : list A) k x j y : nth_error (upd l k x) j = Some y ->
+  exists z, nth_error l j = Some z.
+Proof.
+  intro H. apply nth_error_lt in H. rewrite upd_length in H.
+  destruct (nth_error l j) as [z|] eqn:E; [exists z; reflexivity|]. apply nth_error_None in E. lia.
+Qed.
+
+Theorem exec_step_csim s ks kd sw dw v ws kw s' rb :
+  good_state s -> cstate s -> csim s rb -> 0 < v -> exec_step s ks kd sw dw v ws kw = (s', None) ->
+  exists new rb', st_wl s' = emit (st_wl s) new /\
+    interp true (w_dev (st_wl s)) rb new = Some rb' /\ csim s' rb' /\ cstate s'.
+Proof.
+  intros Hgood Hc Hcs Hv H. pose proof Hgood as (HS & ND & Hd). pose proof (csim_sim _ _ Hcs) as Hsim.
+  destruct (exec_step_state _ _ _ _ _ _ _ _ _ H)
+    as (Ls & i_s & Ld1 & i_d & HLs & His & Hchs & _ & HLd1 & Hid & Hchd & Hst).
+  destruct (nth_error_upd_some _ _ _ _ _ HLd1) as [Ld HLd].
+  set (d := w_dev (st_wl s)) in *.
+  set (Ls' := log (rem_one Ls i_s v) None) in *.
+  set (c := wca (lw_comp Ls) i_s) in *.
+  set (Ld' := log (add_one Ld1 i_d v (Some c)) None) in *.
+  assert (Hv0 : 0 <= v) by lra.
+  (* --- the records *)
+  destruct (exec_step_addressing _ _ _ _ _ _ _ _ _ _ _ H HLs HLd) as (nA & nD & n3 & W & Q3 & FA & FD).
+  assert (Ex : xpos (XQ v) = true) by (cbn [xpos]; apply Qltb_true_intro; exact Hv).
+  cbn [filter snd] in FA, FD. rewrite Ex in FA, FD.
+  inversion FA as [|wx ra pre0 nA0 (fa & Era & A1 & A2 & A3 & A4) FA']; subst. inversion FA'; subst.
+  inversion FD as [|wx rd pre0 nD0 (fd & Erd & D1 & D2 & D3 & D4) FD']; subst. inversion FD'; subst.
+  cbn [fst snd xq] in A2, A4, D2, D4.
+  (* --- well-formedness of the intermediate labware list *)
+  pose proof (wf_nth _ _ _ HS HLs) as HWs.
+  assert (HWs' : wf_labware Ls').
+  { apply log_wf. destruct HWs as [Hsh Hvi]. split; [apply rem_one_shape; exact Hsh|].
+    apply rem_one_vol_inv; assumption. }
+  assert (HS1 : Forall wf_labware (upd (st_lw s) ks Ls')) by (apply Forall_upd; assumption).
+  pose proof (Forall_nth_error _ _ _ _ HS1 HLd1) as HWd1.
+  assert (Hc1 : Forall cinv (upd (st_lw s) ks Ls')).
+  { apply Forall_upd; [exact Hc|]. exact (Forall_nth_error _ _ _ _ Hc HLs). }
+  pose proof (Forall_nth_error _ _ _ _ Hc HLs) as (NDs & Hnns).
+  pose proof (Forall_nth_error _ _ _ _ Hc1 HLd1) as (NDd & Hnnd).
+  assert (Hlims1 : lw_name Ld1 = lw_name Ld /\ lw_geom Ld1 = lw_geom Ld).
+  { destruct (Nat.eq_dec ks kd) as [<-|Hne].
+    - rewrite nth_error_upd_same in HLd1 by (eapply nth_error_lt; exact HLs). injection HLd1 as <-.
+      rewrite HLs in HLd. injection HLd as <-. split; reflexivity.
+    - rewrite nth_error_upd_other in HLd1 by exact Hne. rewrite HLd in HLd1. injection HLd1 as <-.
+      split; reflexivity. }
+  destruct Hlims1 as [N1 G1].
+  (* --- the robot: aspirate *)
+  destruct (Forall2_nth_error_l _ _ _ _ _ Hcs HLs) as (r_s & Hr_s & (Hrs_s & HAs & HNs & HFs)).
+  pose proof (lw_index_unpos d Ls sw i_s _ (proj1 (proj1 HWs)) Hd His A2) as Hus.
+  set (r_s' := set_rack_vol r_s i_s (nth i_s (rk_vols r_s) 0 - v)).
+  set (g := fractions_at r_s i_s).
+  set (rb1 := with_rack rb ks r_s' (Some g)).
+  assert (I1 : interp1 true d rb (RA fa) = Some rb1).
+  { cbn [interp1]. rewrite A1, <- A4.
+    apply (do_aspirate_exact true d (st_lw s) rb ks Ls r_s i_s); assumption. }
+  assert (Hcs1 : Forall2 rack_csim (upd (st_lw s) ks Ls') (rb_racks rb1)).
+  { unfold rb1, with_rack. cbn [rb_racks]. apply Forall2_upd; [exact Hcs|].
+    split; [apply (rack_sim_obs (rem_one Ls i_s v)); [apply log_obs|apply rack_sim_rem_one; exact Hrs_s]|].
+    unfold r_s', set_rack_vol. cbn [rk_vols rk_comp]. rewrite upd_length.
+    split; [exact HAs|]. split; [exact HNs|exact HFs]. }
+  assert (Hsim1 : sim_racks (upd (st_lw s) ks Ls') (rb_racks rb1)).
+  { eapply Forall2_imp; [|exact Hcs1]. intros L r (Hx & _). exact Hx. }
+  assert (ND1 : NoDup (map lw_name (upd (st_lw s) ks Ls'))) by (rewrite (names_upd _ _ Ls); [exact ND|exact HLs|reflexivity]).
+  (* --- the robot: dispense *)
+  destruct (Forall2_nth_error_l _ _ _ _ _ Hcs1 HLd1) as (r_d & Hr_d & (Hrs_d & HAd & HNd & HFd)).
+  rewrite <- G1 in D2.
+  pose proof (lw_index_unpos d Ld1 dw i_d _ (proj1 (proj1 HWd1)) Hd Hid D2) as Hud.
+  set (V := nth i_d (rk_vols r_d) 0).
+  set (r_d' := {| rk_name := rk_name r_d; rk_geom := rk_geom r_d; rk_min := rk_min r_d; rk_max := rk_max r_d;
+                  rk_vols := upd (rk_vols r_d) i_d (V + v); rk_comp := mix_into r_d i_d V v g |}).
+  set (rb2 := with_rack rb1 kd r_d' (Some g)).
+  assert (I2 : interp1 true d rb1 (RD fd) = Some rb2).
+  { cbn [interp1]. rewrite D1, <- D4, <- N1.
+    rewrite (do_dispense_exact true d _ rb1 kd Ld1 r_d i_d _ v Hsim1 ND1 HLd1 Hr_d Hud Hchd). reflexivity. }
+  destruct (interp_quiet true d n3 rb2 Q3) as (rb3 & I3 & R3).
+  (* --- arithmetic facts *)
+  pose proof Hrs_d as (_ & _ & _ & _ & Hvd).
+  assert (HV : V == vol_at Ld1 i_d) by (unfold V, vol_at; symmetry; apply Forall2_Qeq_nth; exact Hvd).
+  pose proof (vol_at_range Ld1 i_d (proj2 HWd1)) as [HV0 _].
+  assert (Hnz : ~ vol_at Ld1 i_d + v == 0) by (intro C; lra).
+  assert (Hnz' : ~ V + v == 0) by (intro C; lra).
+  pose proof (lw_index_bound Ld1 dw i_d (wf_shape_shape0 _ (proj1 HWd1)) Hid) as Hid_lt.
+  destruct (proj1 HWd1) as (_ & Hlen_d & Harr_d & _).
+  assert (Hid_n : (i_d < n_wells (lw_geom Ld1))%nat) by (rewrite <- Hlen_d; exact Hid_lt).
+  assert (Hid_r : (i_d < length (rk_vols r_d))%nat) by (rewrite <- (Forall2_length' _ _ _ Hvd); exact Hid_lt).
+  assert (NC : NoDup (map fst c)) by (apply wca_NoDup; exact NDs).
+  assert (Hgc : forall k, fget k g == fget k c).
+  { intro k. unfold g, c. rewrite fget_fractions_at, HFs. symmetry. apply fget_wca; [exact NDs|apply Hnns]. }
+  assert (Hfr : forall k j, cfrac (lw_comp (add_one Ld1 i_d v (Some c))) k j ==
+            if (j =? i_d)%nat then (vol_at Ld1 i_d * cfrac (lw_comp Ld1) k i_d + v * fget k c) / (vol_at Ld1 i_d + v)
+            else cfrac (lw_comp Ld1) k j).
+  { intros k j. apply add_one_cfrac; try assumption. intro k0. apply Hnnd. }
+  (* --- assemble *)
+  exists ([RA fa] ++ [RD fd] ++ n3)%list, rb3. split; [exact W|]. split.
+  { cbn [app interp]. rewrite I1, I2. exact I3. }
+  split.
+  - unfold csim. rewrite Hst, R3. unfold rb2, with_rack. cbn [rb_racks]. apply Forall2_upd; [exact Hcs1|].
+    split; [apply (rack_sim_obs (add_one Ld1 i_d v (Some c))); [apply log_obs|apply rack_sim_add_one; exact Hrs_d]|].
+    unfold r_d'. cbn [rk_vols rk_comp]. rewrite upd_length.
+    assert (NG : NoDup (map fst g)) by (unfold g; rewrite fractions_at_keys; exact HNs).
+    destruct (mix_into_inv r_d i_d V v g HAd HNd NG) as [MA MN].
+    split; [exact MA|]. split; [exact MN|].
+    intros k j. change (lw_comp Ld') with (lw_comp (add_one Ld1 i_d v (Some c))).
+    rewrite (mix_into_cfrac r_d i_d V v g k j HAd Hid_r Hnz'), Hfr.
+    destruct (j =? i_d)%nat; [|apply HFd]. rewrite HV, (HFd k i_d), (Hgc k). reflexivity.
+  - unfold cstate. rewrite Hst. apply Forall_upd; [exact Hc1|]. split.
+    + change (lw_comp Ld') with (lw_comp (add_one Ld1 i_d v (Some c))). unfold add_one. cbv zeta.
+      rewrite write_composition_fold. apply wc_fold_NoDup. exact NDd.
+    + intros k j. change (lw_comp Ld') with (lw_comp (add_one Ld1 i_d v (Some c))). rewrite Hfr.
+      destruct (j =? i_d)%nat; [|apply Hnnd].
+      apply mix_formula_nonneg; [exact HV0|exact Hv|apply Hnnd|].
+      rewrite <- Hgc. unfold g. rewrite fget_fractions_at, HFs. apply Hnns.
+Qed.
+
+(* ------------------------------------------------------------------ composition: transfers and programs *)
+
+Definition step_pos (a : action) : Prop := match a with Step _ _ v => 0 < v | Commit => True end.
+
+Lemma plan_pos autosplit m mode triples : Forall step_pos (plan autosplit m mode triples).
+Proof.
+  unfold plan. apply Forall_flat_map. apply Forall_forall. intros grp _.
+  unfold group_plan. cbv zeta. apply Forall_app. split.
+  - apply Forall_flat_map. apply Forall_forall. intros p _. apply Forall_app. split.
+    + unfold pass_steps. apply Forall_flat_map. apply Forall_forall. intros t _.
+      destruct (nth_error (snd t) p) as [v|]; [|constructor].
+      destruct (Qltb 0 v) eqn:E; [|constructor]. constructor; [|constructor]. apply Qltb_true. exact E.
+    + destruct (_ && _ && _)%bool; [constructor; [exact I|constructor]|constructor].
+  - destruct (1 <? _)%nat; [constructor; [exact I|constructor]|constructor].
+Qed.
+
+Lemma csim_set_wl s w rb : csim s rb -> csim (set_wl s w) rb.
+Proof. intro H. exact H. Qed.
+
+Lemma csim_racks s rb rb' : csim s rb -> rb_racks rb' = rb_racks rb -> csim s rb'.
+Proof. intros H E. unfold csim. rewrite E. exact H. Qed.
+
+Lemma rack_csim_obs L L' r : same_obs L L' -> lw_comp L' = lw_comp L -> rack_csim L r -> rack_csim L' r.
+Proof.
+  intros Ho Hc (H1 & H2 & H3 & H4). split; [eapply rack_sim_obs; eassumption|].
+  split; [exact H2|]. split; [exact H3|]. rewrite Hc. exact H4.
+Qed.
+
+Lemma condense_comp L n label : lw_comp (condense_log L n label) = lw_comp L.
+Proof. unfold condense_log. destruct (n <? 1)%nat; reflexivity. Qed.
+
+Lemma csim_condense_at s k n label rb : csim s rb -> csim (condense_at s k n label) rb.
+Proof.
+  intro H. unfold condense_at. destruct (nth_error (st_lw s) k) as [L|] eqn:E; [|exact H].
+  unfold csim, set_lw. cbn [st_lw].
+  destruct (Forall2_nth_error_l _ _ _ _ _ H E) as (r & Hr & Hrc).
+  eapply Forall2_upd_l; [exact H|exact Hr|].
+  eapply rack_csim_obs; [apply condense_obs|apply condense_comp|exact Hrc].
+Qed.
+
+Lemma cstate_condense_at s k n label : cstate s -> cstate (condense_at s k n label).
+Proof.
+  intro H. unfold condense_at. destruct (nth_error (st_lw s) k) as [L|] eqn:E; [|exact H].
+  unfold cstate, set_lw. cbn [st_lw]. apply Forall_upd; [exact H|].
+  pose proof (Forall_nth_error _ _ _ _ H E) as Hc. unfold cinv. rewrite condense_comp. exact Hc.
+Qed.
+
+Theorem exec_csim ks kd ws kw acts : Forall step_pos acts -> forall s s' rb,
+  good_state s -> cstate s -> csim s rb -> exec s ks kd acts ws kw = (s', None) ->
+  exists new rb', st_wl s' = emit (st_wl s) new /\
+    interp true (w_dev (st_wl s)) rb new = Some rb' /\ csim s' rb' /\ cstate s'.
+Proof.
+  induction acts as [|a rest IH]; intros Hpos s s' rb Hgood Hc Hcs H; cbn [exec] in H.
+  - injection H as <-. exists [], rb. rewrite emit_nil. repeat (split; [reflexivity || assumption|]). assumption.
+  - inversion Hpos as [|a' r' Ha Hrest]; subst. destruct a as [sw dw v|].
+    + destruct (exec_step s ks kd sw dw v ws kw) as [s1 [e1|]] eqn:Es; [discriminate|].
+      destruct (exec_step_csim _ _ _ _ _ _ _ _ _ _ Hgood Hc Hcs Ha Es) as (n1 & rb1 & W1 & I1 & S1 & C1).
+      pose proof (exec_step_wf' _ _ _ _ _ _ _ _ _ _ Es (proj1 Hgood)) as HS1.
+      destruct (good_next _ _ _ _ _ _ Hgood (csim_sim _ _ Hcs) W1 I1 (csim_sim _ _ S1) HS1) as [Hgood1 Hdev1].
+      destruct (IH Hrest _ _ _ Hgood1 C1 S1 H) as (n2 & rb2 & W2 & I2 & S2 & C2). rewrite Hdev1 in I2.
+      exists (n1 ++ n2)%list, rb2. split; [rewrite W2, W1, emit_emit; reflexivity|].
+      split; [rewrite interp_app, I1; exact I2|]. split; assumption.
+    + cbn [commit fst] in H.
+      assert (Hgood1 : good_state (set_wl s (emit (st_wl s) [RB]))) by exact Hgood.
+      destruct (IH Hrest _ _ rb Hgood1 Hc Hcs H) as (n2 & rb2 & W2 & I2 & S2 & C2).
+      exists (RB :: n2), rb2. cbn [st_wl set_wl] in W2.
+      split; [rewrite W2, emit_emit; reflexivity|]. split; [exact I2|]. split; assumption.
+Qed.
+
+Theorem transfer_csim s ks swells kd dwells vols label ws pb kw s' rb :
+  good_state s -> cstate s -> csim s rb ->
+  transfer s ks swells kd dwells vols label ws pb kw = (s', None) ->
+  exists new rb', st_wl s' = emit (st_wl s) new /\
+    interp true (w_dev (st_wl s)) rb new = Some rb' /\ csim s' rb' /\ cstate s'.
+Proof.
+  intros Hgood Hc Hcs H. unfold transfer in H. cbv zeta in H.
+  destruct (w_dev (st_wl s)) eqn:Ed; [| |discriminate].
+  all: destruct (nth_error (st_lw s) ks) as [Ls|]; [|discriminate];
+    destruct (nth_error (st_lw s) kd) as [Ld|]; [|discriminate];
+    destruct (negb _); [discriminate|];
+    destruct (existsb _ _); [discriminate|];
+    destruct (_ || _); [discriminate|];
+    destruct (optimize_partition_by _ _ pb) as [mode|e0]; [|discriminate];
+    destruct (comment (st_wl s) label) as [w [e1|]] eqn:Ec; [discriminate|];
+    destruct (comment_quiet _ _ _ _ Ec) as (n0 & W0 & Q0);
+    match type of H with context [exec ?st ?k1 ?k2 ?a ?sc ?kk] =>
+      destruct (exec st k1 k2 a sc kk) as [s1 [e2|]] eqn:Ee; [discriminate|];
+      assert (Hpos : Forall step_pos a) by apply plan_pos end.
+  all: destruct (interp_quiet true (w_dev (st_wl s)) n0 rb Q0) as (rb0 & I0 & R0);
+    assert (Hgood0 : good_state (set_wl s w))
+      by (destruct Hgood as (A & B & C); split; [exact A|]; split; [exact B|]; cbn [st_wl set_wl]; rewrite W0; exact C);
+    assert (Hcs0 : csim (set_wl s w) rb0) by (eapply csim_racks; [exact Hcs|exact R0]);
+    destruct (exec_csim _ _ _ _ _ Hpos _ _ _ Hgood0 Hc Hcs0 Ee) as (n1 & rb1 & W1 & I1 & S1 & C1);
+    cbn [st_wl set_wl] in W1, I1; rewrite W0 in I1; cbn [w_dev emit] in I1;
+    assert (Hint : interp true (w_dev (st_wl s)) rb (n0 ++ n1) = Some rb1) by (rewrite interp_app, I0; exact I1);
+    assert (Hw : st_wl s1 = emit (st_wl s) (n0 ++ n1)) by (rewrite W1, W0, emit_emit; reflexivity);
+    rewrite Ed in Hint;
+    destruct (ks =? kd)%nat; injection H as <-; exists (n0 ++ n1)%list, rb1; rewrite ?st_wl_condense;
+    (split; [exact Hw|]); (split; [exact Hint|]);
+    (split; [repeat apply csim_condense_at; exact S1|repeat apply cstate_condense_at; exact C1]).
+Qed.
+
+(** programs of transfers and record-only calls *)
+Definition tr_op (o : op) : bool :=
+  match o with
+  | OTransfer _ _ _ _ _ _ _ _ _ | OComment _ | OWash _ | ODecon | OFlush | OCommit | OSetDiti _ => true
+  | _ => false
+  end.
+
+Lemma on_wl_csim s f s' e rb :
+  (forall w w' e, f w = (w', e) -> exists new, w' = emit w new /\ forallb quiet new = true) ->
+  cstate s -> csim s rb -> on_wl s f = (s', e) ->
+  exists new rb', st_wl s' = emit (st_wl s) new /\
+    interp true (w_dev (st_wl s)) rb new = Some rb' /\ csim s' rb' /\ cstate s'.
+Proof.
+  intros Hf Hc Hcs H. unfold on_wl in H. destruct (f (st_wl s)) as [w e0] eqn:E. injection H as <- <-.
+  destruct (Hf _ _ _ E) as (new & Hw & Hq).
+  destruct (interp_quiet true (w_dev (st_wl s)) new rb Hq) as (rb' & A & B).
+  exists new, rb'. split; [exact Hw|]. split; [exact A|]. split; [eapply csim_racks; [exact Hcs|exact B]|exact Hc].
+Qed.
+
+Theorem step_csim s o s' rb :
+  good_state s -> cstate s -> csim s rb -> tr_op o = true -> step s o = (s', None) ->
+  exists new rb', st_wl s' = emit (st_wl s) new /\
+    interp true (w_dev (st_wl s)) rb new = Some rb' /\ csim s' rb' /\ cstate s'.
+Proof.
+  intros Hgood Hc Hcs Hop H.
+  destruct o as [k wells vols label comps|k wells vols label|k n label|k wells vols label kw
+                |k wells vols label comps kw|ks swells kd dwells vols label ws pb kw|ks kd dwells a
+                |c|sch| | | |i|a|a|a|k a label|k a label comps|a]; try discriminate; cbn [step] in H.
+  - eapply transfer_csim; eassumption.
+  - apply (on_wl_csim s _ s' None rb (fun w w' e0 => comment_quiet w c w' e0) Hc Hcs H).
+  - apply (on_wl_csim s _ s' None rb (fun w w' e0 => wash_spec w sch w' e0) Hc Hcs H).
+  - apply (on_wl_csim s _ s' None rb decontaminate_spec Hc Hcs H).
+  - apply (on_wl_csim s _ s' None rb flush_spec Hc Hcs H).
+  - apply (on_wl_csim s _ s' None rb commit_spec Hc Hcs H).
+  - apply (on_wl_csim s _ s' None rb (fun w w' e0 => set_diti_spec w i w' e0) Hc Hcs H).
+Qed.
+
+Theorem run_csim ops : forall s rb,
+  good_state s -> cstate s -> csim s rb -> forallb tr_op ops = true ->
+  Forall (fun e => e = None) (snd (run s ops)) ->
+  exists new rb', st_wl (fst (run s ops)) = emit (st_wl s) new /\
+    interp true (w_dev (st_wl s)) rb new = Some rb' /\ csim (fst (run s ops)) rb'.
+Proof.
+  induction ops as [|o r IH]; intros s rb Hgood Hc Hcs Hops Hall.
+  - exists [], rb. cbn [run fst]. rewrite emit_nil. split; [reflexivity|]. split; [reflexivity|exact Hcs].
+  - rewrite run_cons in *. cbn [fst snd] in *. cbn [forallb] in Hops. apply andb_true_iff in Hops.
+    destruct Hops as [Ho Hr]. inversion Hall as [|e' es' He Hes]; subst.
+    destruct (step s o) as [s1 e1] eqn:Es. cbn [fst snd] in *. subst e1.
+    destruct (step_csim _ _ _ _ Hgood Hc Hcs Ho Es) as (n1 & rb1 & W1 & I1 & S1 & C1).
+    pose proof (step_wf' _ _ _ _ Es (proj1 Hgood)) as HS1.
+    destruct (good_next _ _ _ _ _ _ Hgood (csim_sim _ _ Hcs) W1 I1 (csim_sim _ _ S1) HS1) as [Hgood1 Hdev1].
+    destruct (IH s1 rb1 Hgood1 C1 S1 Hr Hes) as (n2 & rb2 & W2 & I2 & S2). rewrite Hdev1 in I2.
+    exists (n1 ++ n2)%list, rb2. split; [rewrite W2, W1, emit_emit; reflexivity|].
+    split; [rewrite interp_app, I1; exact I2|exact S2].
+Qed.
+
+Lemma csim_robot_of s : wf_state s -> cstate s -> csim s (robot_of (st_lw s)).
+Proof.
+  intros HS Hc. unfold csim, robot_of. cbn [rb_racks]. unfold wf_state, cstate in *.
+  induction (st_lw s) as [|L r IH]; cbn [map]; constructor.
+  - inversion HS as [|L' r' [(Hg & Hlen & Harr & _) _] _]; subst. inversion Hc as [|L' r' [ND _] _]; subst.
+    split; [apply rack_sim_of|]. unfold rack_of. cbn [rk_vols rk_comp].
+    split; [unfold arrays_len; rewrite Hlen; exact Harr|]. split; [exact ND|]. intros k j. reflexivity.
+  - inversion HS; subst. inversion Hc; subst. apply IH; assumption.
+Qed.
+
+(** C01_composition for programs of transfers: the replayed robot reports, for every component and every
+    well, the fraction the Labware objects report *)
+Theorem run_composition s0 ops :
+  good_state s0 -> cstate s0 -> w_recs (st_wl s0) = [] -> forallb tr_op ops = true ->
+  Forall (fun e => e = None) (snd (run s0 ops)) ->
+  exists rb, interp false (w_dev (st_wl s0)) (robot_of (st_lw s0)) (w_recs (st_wl (fst (run s0 ops)))) = Some rb /\
+             csim (fst (run s0 ops)) rb.
+Proof.
+  intros Hgood Hc Hrecs Hops Hall.
+  destruct (run_csim ops s0 _ Hgood Hc (csim_robot_of s0 (proj1 Hgood) Hc) Hops Hall) as (new & rb & W & I & S).
+  exists rb. rewrite W. cbn [w_recs emit]. rewrite Hrecs. cbn [app].
+  split; [apply interp_unchecked; exact I|exact S].
+Qed.
+
+(** pointwise reading of [csim] *)
+Lemma csim_fraction s rb k0 L r k j : csim s rb -> nth_error (st_lw s) k0 = Some L ->
+  nth_error (rb_racks rb) k0 = Some r -> cfrac (rk_comp r) k j == cfrac (lw_comp L) k j.
+Proof.
+  intros H HL Hr. destruct (Forall2_nth_error_l _ _ _ _ _ H HL) as (r' & Hr' & (_ & _ & _ & Hf)).
+  rewrite Hr in Hr'. injection Hr' as <-. apply Hf.
+Qed.
+
+(** the example state satisfies the composition invariant *)
+Lemma nth_nonneg_4 a b c0 d0 j : 0 <= a -> 0 <= b -> 0 <= c0 -> 0 <= d0 -> 0 <= nth j [a; b; c0; d0] 0.
+Proof. intros. destruct j as [|[|[|[|j]]]]; cbn [nth]; try assumption; destruct j; lra. Qed.
+
+Lemma ex_state_cstate d : cstate (ex_state d).
+Proof.
+  unfold cstate, ex_state. cbn [st_lw]. constructor; [|constructor; [|constructor]].
+  - split.
+    + cbn. constructor; [intros [C|[]]; discriminate|constructor; [intros []|constructor]].
+    + intros k j. unfold cfrac, ex_big. cbn [lw_comp assoc_get].
+      destruct (String.eqb _ k); [apply nth_nonneg_4; lra|].
+      destruct (String.eqb _ k); [apply nth_nonneg_4; lra|lra].
+  - split.
+    + cbn. constructor; [intros [C|[]]; discriminate|constructor; [intros []|constructor]].
+    + intros k j. unfold cfrac, ex_t4. cbn [lw_comp assoc_get].
+      destruct (String.eqb _ k); [destruct j as [|[|j]]; cbn [nth]; try lra; destruct j; lra|].
+      destruct (String.eqb _ k); [destruct j as [|[|j]]; cbn [nth]; try lra; destruct j; lra|lra].
+Qed.
